@@ -324,6 +324,11 @@ VARIANTS = [
     V("twin: blueprint given a picklable placeholder context", ("C13",), "", "aggregations.py",
       '        agg.finalize_kwargs = copy.deepcopy(finalize_kwargs)\n',
       '        agg.finalize_kwargs = copy.deepcopy(finalize_kwargs)\n        import contextlib\n        agg._derive_lock = contextlib.nullcontext()\n', expect="silent"),
+    V("all-missing arm of chunk_reduce allocates in the dtype of the fill", ("C11", "C12"), "R-ARMDTYPE", "core.py",
+      'fill_value=fv, dtype=dt)', 'fill_value=fv)', must_mention="dtype of the fill"),
+    V("twin: all-missing arm allocates empty and fills, with the paired dtype", ("C11", "C12"), "", "core.py",
+      '            result = np.full(shape=new_dims_shape + final_array_shape, fill_value=fv, dtype=dt)',
+      '            result = np.empty(new_dims_shape + final_array_shape, dtype=dt)\n            result[...] = fv', expect="silent"),
     V("dtype promotion memoised with an untyped key", ("C14",), "R-MEMO", "xrdtypes.py", '        dtype = np.result_type(dtype, fill_value)\n    return dtype\n',
       '        dtype = _promote_for_fill_value(dtype, fill_value)\n    return dtype\n\n\n@functools.lru_cache\ndef _promote_for_fill_value(dtype: np.dtype, fill_value) -> np.dtype:\n    return np.result_type(dtype, fill_value)\n', must_mention="typed"),
     V("twin: dtype promotion memoised with typed=True", ("C14",), "", "xrdtypes.py", '        dtype = np.result_type(dtype, fill_value)\n    return dtype\n',
